@@ -380,3 +380,11 @@ CHECKS["C04"]["harnesses"].append(
 CHECKS["C09"]["harnesses"].append(
     dict(_HTTP, harness="Harness_C09_negotiationSequence", setup="Setup_C09_negotiationSequence", reach=["c09.negseq"], quick={"sample_models": 20, "sample_every": 5},
          what="two requests through one server with configured response headers (none / without Content-Type) x 3 x 3 Accept headers x GET/POST x valid / invalid second document: Content-Type and client-error status of the second answer follow its own Accept"))
+
+CHECKS["C16"]["harnesses"].append(
+    {"pkg": "graphql/introspection", "harness": "Harness_C16_relations", "setup": "Setup_C16_relations", "reach": ["c16.rel.type", "c16.rel.schema"], "workers": 6, "quick": {"sample_models": 40},
+     "what": "every type of a schema with an interface hierarchy, unions, wrappers, oneOf, specifiedBy, repeatable directives: kind, name, description, interfaces, possibleTypes, ofType chains of every field / argument / input field, enum values, type list, root types, directives with locations and arguments, against the ast.Schema"})
+
+CHECKS["C15"]["harnesses"].append(
+    {"pkg": "graphql/handler/extension", "harness": "Harness_C15_concurrent", "workers": 8, "race": True, "reach": ["apq.concurrent"], "quick": {"sample_models": 12, "sample_every": 3},
+     "what": "two requests carrying text and hash handled concurrently by one AutomaticPersistedQuery extension (own hash / another text's hash x 2 texts each), every explored schedule under the happens-before race check: each verdict is the one the request gets alone, the store only maps a hash to the text with that SHA-256"})
